@@ -573,6 +573,16 @@ func (s *c14State) checkHooks(note string) {
 				rc.Fail("C14.hook-wrong-key", "a hook was called for a key outside its query", fmt.Sprintf("hook %d %s %s", hi, c.Phase, c.Key))
 				return
 			}
+			if h.spec.Cond != nil && (c.Phase == "postget" || c.Phase == "preput") {
+				// the record must satisfy the hook's condition
+				base := strings.TrimSuffix(c.ID, "#del")
+				for _, w := range s.writes {
+					if w.Kind == "put" && w.ID == base && !h.spec.Cond.eval(w.F) {
+						rc.Fail("C14.hook-wrong-record", "a hook was called for a record that does not match its query condition", fmt.Sprintf("hook %d %s %s (%s)", hi, c.Phase, c.Key, condStr(h.spec.Cond)))
+						return
+					}
+				}
+			}
 			if h.cancelled && c.Seq > h.cancelRet {
 				rc.Fail("C14.hook-after-cancel", "a hook was called after its Cancel returned"+hnote, fmt.Sprintf("hook %d %s %s", hi, c.Phase, c.Key))
 				return
